@@ -11,7 +11,7 @@ from . import codec
 from .common import PY, REPO, MachineryError
 
 COVERED = ["CONV_2D", "DEPTHWISE_CONV_2D", "MAX_POOL_2D", "AVERAGE_POOL_2D", "ADD", "SUB", "MUL", "FULLY_CONNECTED",
-           "RESHAPE"]
+           "RESHAPE", "SQUEEZE", "EXPAND_DIMS", "MEAN"]
 
 
 def generate(tmpdir):
@@ -151,6 +151,15 @@ SPECIFIC_PATTERNS = [
     ("rs_quant", r"^Input and output quantisation must match\.$", ()),
     ("rs_elems", r"^Input and output number of elements must match\.$", ()),
     ("rs_const", r"^Shape must be constant$", ()),
+    ("mean_rank", r"^Input tensor must be at least (\d+)D$", ("MeanMinRank",)),
+    ("mean_axis", r"^Requirements for axis parameter: When IFM tensor is 2D: - Reduction in both axes is supported\. When IFM "
+                  r"tensor is 3D or 4D: - Reduction in Batch axis is only supported if batch size is 1\. - Reduction in both "
+                  r"Height and Width axes is supported\. - Reduction in Depth axis is supported if at least one of H,W,C are "
+                  r"of size 1\.$", ()),
+    ("mean_prod", r"^Product of reduced axes must be no greater than: - (\d+) for signed 8-bit inputs\. - (\d+) for unsigned "
+                  r"8-bit inputs\. - (\d+) for signed 16-bit inputs\.$", ("MeanProdI8", "MeanProdU8", "MeanProdI16")),
+    ("mean_width", r"^If Width axis is reduced its shape must be no greater than (\d+)\.$", ("MeanWMax",)),
+    ("mean_depth", r"^If Depth axis is reduced its shape must be no greater than (\d+)\.$", ("MeanDMax",)),
 ]
 SET_CONSTS = {"ScalarOps", "TypeSet", "Int32Ops", "PerAxisOps", "FafSet", "FafOutTypes", "BiasTypes"}
 # per-operator constants: the same bullet text may carry different numbers for different operators
@@ -158,6 +167,7 @@ PER_OP = {"ScHLo", "ScHHi", "ScWLo", "ScWHi", "DilHLo", "DilHHi", "DilPLo", "Dil
 DEFAULTS = {"MaxRank": 0, "DimLo": 0, "DimHi": 0, "BatchVal": 1, "TypeSet": [], "Int32Ops": [], "PerAxisOps": [],
             "FafSet": [], "FafOutTypes": [], "ScalarOps": [], "BatchExempt": [],
             "DwSLo": 0, "DwSHi": 0, "PsLo": 0, "PsHi": 0, "MpHLo": 0, "MpHHi": 0, "MpPLo": 0, "MpPHi": 0,
+            "MeanMinRank": 0, "MeanProdI8": 0, "MeanProdU8": 0, "MeanProdI16": 0, "MeanWMax": 0, "MeanDMax": 0,
             "ApSwMin": 0, "ApSwValidAbove": 0, "ApFLo": 0, "ApFHi": 0, "ApVHLo": 0, "ApVHHi": 0, "ApVPLo": 0, "ApVPHi": 0}
 PER_OP_DEFAULTS = {"ScHLo": 0, "ScHHi": 0, "ScWLo": 0, "ScWHi": 0, "DilHLo": 0, "DilHHi": 0, "DilPLo": 0, "DilPHi": 0,
                    "WSumMax": 0, "BiasTypes": [], "BiasBits": 0}
